@@ -74,6 +74,29 @@ def generate(seed, tier):
             inl = progs.strip(gi.stmts(own, 1, lo=1, hi=1)) if own else []
             ops.append({"op": "frw", "targets": [[p, []]], "ctx": p, "inline": inl,
                         "k": st.lib.randint(0, 1 << 30)})
+    if rng.random() < 0.4:
+        # an object in which nothing is random and nothing is constrained: the callbacks of the
+        # object the call is made on run all the same
+        z = {"name": "Z0", "cb": True, "blocks": [], "fields": [
+            {"n": "n0", "k": "s", "w": 3, "s": False, "r": False, "i": rng.randint(0, 7)},
+            {"n": "n1", "k": "s", "w": 4, "s": True, "r": False, "i": 0}]}
+        if rng.random() < 0.5:
+            z["fields"].append({"n": "el", "k": "lo", "c": prog["classes"][0]["name"], "r": True, "sz": 0})
+        prog["classes"].append(z)
+        zp = n_parties
+        zops = [{"op": "new", "cls": "Z0"}, {"op": "seed", "p": zp, "k": st.lib.randint(0, 1 << 30)}]
+        for _ in range(orng.randint(2, 4)):
+            k_ = orng.choice(["randomize", "rw", "frand", "frw"])
+            if k_ == "randomize":
+                zops.append({"op": "randomize", "p": zp})
+            elif k_ == "rw":
+                zops.append({"op": "rw", "p": zp, "inline": []})
+            elif k_ == "frand":
+                zops.append({"op": "frand", "targets": [[zp, []]], "k": st.lib.randint(0, 1 << 30)})
+            else:
+                zops.append({"op": "frw", "targets": [[zp, []]], "ctx": zp, "inline": [],
+                             "k": st.lib.randint(0, 1 << 30)})
+        ops += zops
     return {"prop": ID, "seed": seed, "prog": prog, "ops": ops,
             "pre_seed": st.fault.randint(0, 1 << 30)}
 
